@@ -162,6 +162,21 @@ def del_worker(_):
             "lookup_called": "spec_classes.types.attr:Attr.lookup_default_value" in it.functions_entered}
 
 
+def peer_rule(ctx, rep, rule="C08.PEER"):
+    # ---- PEER: the instance returned by a copy-on-write helper is a deep copy (shared with C02.S)
+    rep.rules[rule] = "copy-on-write helpers return a deep copy: no mutable state shared with the peer it was derived from"
+    from . import c02, provrun
+    tasks = [t for t in provrun.helper_tasks(ctx, families=False) if t[0].startswith("Reset")]
+    for r in pmap(c02.worker, tasks):
+        rep.evaluations += len(r["paths"])
+        shallow = [v for v in r["viols"] if v["how"] in ("shallow-copy", "return")]
+        rep.oblige(rule, r["entry"], not shallow)
+        for v in shallow[:1]:
+            rep.violate(Violation(rule, f"{rule}|{r['task'][0]}", f"{r['task'][0]} returns a shallow / memo-seeded copy (`{v['value']}`): the result and the receiver share every other attribute's nested value",
+                                  "", r["task"][0], v["path"], r["entry"]))
+
+
+
 def _check_main(ctx, rep: Report):
     # ---- FR
     rep.rules["C08.FR"] = "every return of lookup_default_value/default_value is fresh, a factory result, immutable or MISSING"
@@ -285,17 +300,7 @@ def _check_main(ctx, rep: Report):
         raise AnalysisError(f"C08.RD: only {len(reads)} default reads found (floor 5)")
 
 
-    # ---- PEER: the instance returned by a copy-on-write helper is a deep copy (shared with C02.S)
-    rep.rules["C08.PEER"] = "copy-on-write helpers return a deep copy: no mutable state shared with the peer it was derived from"
-    from . import c02, provrun
-    tasks = [t for t in provrun.helper_tasks(ctx, families=False) if t[0].startswith("Reset")]
-    for r in pmap(c02.worker, tasks):
-        rep.evaluations += len(r["paths"])
-        shallow = [v for v in r["viols"] if v["how"] in ("shallow-copy", "return")]
-        rep.oblige("C08.PEER", r["entry"], not shallow)
-        for v in shallow[:1]:
-            rep.violate(Violation("C08.PEER", f"C08.PEER|{r['task'][0]}", f"{r['task'][0]} returns a shallow / memo-seeded copy (`{v['value']}`): the result and the receiver share every other attribute's nested value",
-                                  "", r["task"][0], v["path"], r["entry"]))
+    peer_rule(ctx, rep)
 
     # ---- OWNER: the owner's stored default is used only for the owning class itself
     rep.rules["C08.OWNER"] = "lookup_default_value: Attr.default_value is returned only when the class reached in the MRO walk is the owner"
@@ -377,3 +382,7 @@ def check(ctx, rep):
     from .c05 import resetall_rule
     resetall_rule(ctx, rep, "C08.RESETALL")
     metarules.rebuild_options(ctx, rep, "C08.META")
+    from .c01 import w_rule
+    w_rule(ctx, rep, "C08.COW", lambda h, t: h.family in ("sequence", "mapping", "set"))
+    from .c02 import dc_rule
+    dc_rule(ctx, rep, "C08.DC")
